@@ -61,6 +61,8 @@ type PContext struct {
 	originIfaceValue *hack.Iface
 	// proxyFunc 代理函数, 需要内存持续持有
 	proxyFunc reflect.Value
+	// holds 持有所有已经织入到桩代码中的函数对象, 桩代码中的指针对 GC 不可见, 需要在接口变量存活期间一直持有
+	holds []interface{}
 	// canceled 是否已经被取消
 	canceled bool
 }
@@ -115,6 +117,7 @@ func GenCallableMethod(ctx *IContext, apply interface{}, proxy PFunc) uintptr {
 		applyValue := reflect.ValueOf(apply)
 		mockFuncPtr := (*hack.Value)(unsafe.Pointer(&applyValue)).Ptr
 		methodCaller, err = MakeMethodCaller(mockFuncPtr)
+		ctx.p.holds = append(ctx.p.holds, apply)
 	} else {
 		// 生成桩代码,rdx 寄存器还原, 生成的调用将跳转到 proxy 函数
 		methodTyp := reflect.TypeOf(apply)
@@ -127,6 +130,7 @@ func GenCallableMethod(ctx *IContext, apply interface{}, proxy PFunc) uintptr {
 		mockFuncPtr := (*hack.Value)(unsafe.Pointer(&mockFunc)).Ptr
 		methodCaller, err = MakeMethodCallerWithCtx(mockFuncPtr, callStub)
 		ctx.p.proxyFunc = mockFunc
+		ctx.p.holds = append(ctx.p.holds, mockFunc)
 	}
 
 	if err != nil {
